@@ -185,6 +185,7 @@ type verdict struct {
 	kind    string // "", "known", "violation", "corr"
 	index   int
 	kf      string
+	kfs     []string // every distinct finding id (or "" for an untagged deviation) among the known lines of the case
 	implObs string
 	model   string
 	spec    string
@@ -201,6 +202,15 @@ func judge(p *Prop, c Case, impl, model []string) verdict {
 				if v.kind == "" {
 					v = verdict{kind: "known", index: i, kf: m.kf, implObs: impl[i], model: m.model, spec: m.spec}
 				}
+				// every deviation of the modelled code from the spec counts, not only the first of the case: a
+				// different (or untagged) deviation behind a recorded one must still be listed or reported
+				seen := false
+				for _, k := range v.kfs {
+					seen = seen || k == m.kf
+				}
+				if !seen {
+					v.kfs = append(v.kfs, m.kf)
+				}
 			}
 			continue
 		}
@@ -209,7 +219,7 @@ func judge(p *Prop, c Case, impl, model []string) verdict {
 			return verdict{kind: "violation", index: i, implObs: impl[i], model: m.model, spec: m.spec}
 		}
 		if v.kind == "" || v.kind == "known" {
-			v = verdict{kind: "corr", index: i, implObs: impl[i], model: m.model, spec: m.spec}
+			v = verdict{kind: "corr", index: i, implObs: impl[i], model: m.model, spec: m.spec, kfs: v.kfs}
 		}
 		if !p.SpecIndependent {
 			// after a mechanism divergence the model's later answers are unreliable; stop at the first one
@@ -239,7 +249,18 @@ func shrink(p *Prop, env *Env, c Case, kind string, kf string) Case {
 	fails := func(ops []string) bool {
 		cc := Case{Header: c.Header, Ops: ops}
 		v, _, _, err := evalCase(p, env, cc)
-		return err == nil && v.kind == kind && v.kf == kf
+		if err != nil || v.kind != kind {
+			return false
+		}
+		if kind != "known" {
+			return v.kf == kf
+		}
+		for _, k := range v.kfs {
+			if k == kf {
+				return true
+			}
+		}
+		return false
 	}
 	ops := append([]string(nil), c.Ops...)
 	deadline := time.Now().Add(60 * time.Second)
@@ -406,8 +427,10 @@ func Run(p *Prop, env *Env) int {
 		case "":
 			res.TracesValidated++
 		case "known":
-			if _, ok := kfSeen[v.kf]; !ok {
-				kfSeen[v.kf] = c
+			for _, kf := range v.kfs {
+				if _, ok := kfSeen[kf]; !ok {
+					kfSeen[kf] = c
+				}
 			}
 		case "violation":
 			if len(viols) < 6 {
